@@ -80,6 +80,16 @@ def check_results(out: Outcome, tr: scenario.Trace, case: dict) -> None:
             out.v("result-times", f"{tag}: started_when {got.started_when} > finished_when {got.finished_when}")
         if got.ttl != want_ttl:
             out.v("result-ttl", f"{tag}: bucket ttl {got.ttl}, configured {want_ttl}")
+        # the time-to-live counts from the bucket's timestamp, which repid reads as host-local wall-clock time like every other
+        # naive datetime it keeps: it lies between the start of the latest execution and the completion of its store call
+        xs = tr.execs_of(id_)
+        if want_ttl is not None and xs and done_stores and got.timestamp is not None:
+            ts = vclock.secs(got.timestamp)
+            lo, hi = min(x.t0 for x in xs), (done_stores[-1].t_done if done_stores[-1].t_done is not None else tr.final_t)
+            if not lo - 1e-3 <= ts <= hi + 1e-3:
+                out.v("result-ttl-anchor", f"{tag}: the bucket's timestamp {got.timestamp} is t={ts:.3f} in host-local time, outside "
+                      f"[{lo:.3f}, {hi:.3f}] (first start .. store completed): its time-to-live {got.ttl} runs from the wrong instant",
+                      tz=tr.case.get("tz"))
         if exp[0] == "ok":
             try:
                 data = json.loads(got.data) if got.data is not None else None
